@@ -2101,6 +2101,37 @@ func (pa *pkgAn) sharedLocalsOf(fd *ast.FuncDecl) {
 			emit(v, locOf(v), id.Pos(), kind)
 		}
 	}
+	// borrowed objects: a PARAMETER that refers to a message (any / proto.Message / *pkg.Msg) belongs to the
+	// caller, who may write the object again as soon as the function has returned.  When a goroutine started
+	// here captures the parameter, every use inside that goroutine is an access of the object ("<var>.*",
+	// taken as a write: what the goroutine does with it is not followed), and the function's return is the
+	// owner's next write: ordered only if the function waits for the goroutine (WaitGroup) before it returns.
+	params := map[types.Object]string{}
+	if fd.Type.Params != nil {
+		for _, f := range fd.Type.Params.List {
+			for _, nm := range f.Names {
+				if o := pa.info.Defs[nm]; o != nil {
+					params[o] = typeString(f.Type)
+				}
+			}
+		}
+	}
+	for _, v := range vars {
+		ts, isParam := params[v]
+		if !isParam || !borrowedMessageType(ts) {
+			continue
+		}
+		n := 0
+		for _, id := range uses[v] {
+			if threadOf(id.Pos()) != nil {
+				emit(v, locOf(v)+".*", id.Pos(), "W")
+				n++
+			}
+		}
+		if n > 0 {
+			emit(v, locOf(v)+".*", fd.Body.Rbrace, "W") // the owner, after the return
+		}
+	}
 	// the channel objects held by captured variables: close writes, send reads
 	ast.Inspect(fd, func(n ast.Node) bool {
 		switch x := n.(type) {
@@ -2423,6 +2454,23 @@ func (pa *pkgAn) copier(fd *ast.FuncDecl, depth int) bool {
 		return true
 	})
 	return ok && nret > 0
+}
+
+// borrowedMessageType: the (syntactic) type of a parameter through which the caller lends a message
+func borrowedMessageType(ts string) bool {
+	switch ts {
+	case "any", "interface", "proto.Message", "protoreflect.ProtoMessage":
+		return true
+	}
+	// a pointer to a type of another package, unless that package's objects are made for concurrent use
+	if strings.HasPrefix(ts, "*") && strings.Contains(ts, ".") {
+		switch strings.TrimPrefix(ts[:strings.Index(ts, ".")], "*") {
+		case "sync", "atomic", "context", "grpc", "zap", "log", "slog", "time", "testing":
+			return false
+		}
+		return true
+	}
+	return false
 }
 
 func (pa *pkgAn) addCloser(row closerRow) {
